@@ -114,12 +114,15 @@ def universe():
         ({1: 2}, ":{[1 2]}", False), ({}, ":{}", False),
         (np.array([]), "[]", True),
         ([], None, False),                              # an empty Python list (var mode only)
+        (1.0, "1.0", False), (0.0, "0.0", False),       # == 1 / 0 in Python, different Klong values
     ]
 
 
-N_U = 24
+N_U = 26
+# pairs that compare == in Python but are different Klong values (integer/real, character/string)
+TWINS = {1: 24, 24: 1, 0: 25, 25: 0, 8: 11, 11: 8}
 EMPTY_IDX = [7, 22, 21, 23]         # "", [], :{}, Python []
-ATOM_IDX = list(range(0, 13)) + [20, 21]            # values f@a passes as ONE argument (not lists)
+ATOM_IDX = list(range(0, 13)) + [20, 21, 24, 25]            # values f@a passes as ONE argument (not lists)
 LISTVAL_IDX = [13, 14, 15, 17, 18, 19, 22]          # list-valued literals (2+ members, ragged, strings, empty)
 LIT_IDX = None      # filled lazily: indices with a literal
 LIST_IDX = None     # indices usable inside a list literal
@@ -549,6 +552,8 @@ ADVERB_TEXT = {"each": "f'{b}", "over": "f/{b}", "scan": "f\\{b}", "eachpair": "
                "eachleft": "{a} f:\\{b}", "eachright": "{a} f:/{b}", "each2": "{a} f'{b}",
                "overn": "{a} f/{b}", "scann": "{a} f\\{b}"}
 ATOM_LITS = ["5", "0", "0cq", "0ca", '"ab"', "[1 2]"]
+SCALAR_LITS = ["5", "0", "7", "0cq", "0ca", ":qq", "0.5"]
+ATOM_FORMS = ("each", "each2", "overn", "scann")
 LIST_POOLS = [["7"], ["1", "2"], ['"a"', '"bc"'], ["0ca", "0cb"], ["[1 2]", "[3]"], ["7", '"a"', "0cx"]]   # no reals: a scan result mixing a real member with integer returns is coerced by kg_asarray (C01 territory)
 
 
@@ -570,6 +575,17 @@ def gen_adverb(rng, form, sig, where):
         case["a"] = rng.choice(ATOM_LITS)
     elif need == "list":
         case["a"] = gen_operand(rng, allow_empty=False)
+    if form in ATOM_FORMS and rng.random() < 0.35:
+        # ATOM operands: f'a is f(a); a f'b with two atoms is f(a;b); a f/b and a f\b with an atom b apply f once
+        case["atoms"] = True
+        case["b"] = rng.choice(SCALAR_LITS)
+        if need:
+            case["a"] = rng.choice([x for x in SCALAR_LITS if x != case["b"]])
+        case["via_params"] = rng.random() < 0.4       # {x f'y}(a;b): the operands are the caller's parameters
+        if form == "scann":
+            # [a, f(a;b)] with a real a and an integer return is coerced to reals by kg_asarray (C01 territory)
+            case["a"] = "7" if case["a"] == "0.5" else case["a"]
+            case["b"] = "0" if case["b"] == "0.5" else case["b"]
     base = 1000 + rng.randrange(500)
     case["rets"] = [base + i for i in range(12)]          # the return value depends on the call count
     case["frame"] = [rng.choice([901, 902, 903, 17, 0]) for _ in range(3)] if where == "nested" else []
@@ -599,13 +615,18 @@ def run_adverb(ctx, drv, case):
     klong["f"] = w.make(sig, 1, case.get("ckind", "plain"))
     frame = case["frame"]
     try:
-        bs = _members(klong(case["b"]))
+        atoms = bool(case.get("atoms"))
+        bs = [_norm(klong(case["b"]))] if atoms else _members(klong(case["b"]))
         need = ADVERBS[form][1]
         a_val = klong(case["a"]) if need else None
-        a_list = _members(a_val) if need == "list" else None
+        a_list = ([_norm(a_val)] if atoms else _members(a_val)) if need == "list" else None
         a_atom = _norm(a_val) if need == "atom" else None
-        body = ADVERB_TEXT[form].format(a=case.get("a", ""), b=case["b"])
-        prog = body if not frame else "{x;y;z;" + body + "}(" + ";".join(str(v) for v in frame) + ")"
+        if atoms and case.get("via_params"):
+            body = ADVERB_TEXT[form].format(a="x", b="y" if need else "x")
+            prog = "{" + body + "}(" + (case["a"] + ";" if need else "") + case["b"] + ")"
+        else:
+            body = ADVERB_TEXT[form].format(a=case.get("a", ""), b=case["b"])
+            prog = body if not frame else "{x;y;z;" + body + "}(" + ";".join(str(v) for v in frame) + ")"
     except Exception as e:
         ctx.oracle_fail(f"construct:adverb:{type(e).__name__}", case, "literals evaluate",
                         f"{type(e).__name__}: {e}", "the program's operands could not even be prepared")
@@ -651,9 +672,11 @@ def run_adverb(ctx, drv, case):
             calls = [[x, y] for x, y in zip(a_list, bs)]
         shape = "list"
         exp = list(bs) if form == "eachpair" and len(bs) <= 1 else [rets[i] for i in range(len(calls))]
+        if atoms:
+            shape, exp = "val", rets[0]         # f'a --> f(a);  a f'b --> f(a;b) for atoms
     exp_log = [(1, "klong" in sig, [canon(_norm(v)) for v in t]) for t in calls]
     obs_log = [(cid, k, [canon(_norm(v)) for v in args]) for cid, k, args in w.log]
-    key = f"adverb:{form}:{'string' if case['b'].startswith(chr(34)) else 'list'}"
+    key = f"adverb:{form}:{'atom' if atoms else 'string' if case['b'].startswith(chr(34)) else 'list'}"
     if raised is None:
         obs_members = _members(result) if shape == "list" else None
         obs_res = [canon(v) for v in obs_members] if shape == "list" else canon(_norm(result))
@@ -677,7 +700,10 @@ def run_adverb(ctx, drv, case):
             left = f" left={it.tok(a_atom)}"
         elif ADVERBS[form][1] == "list":
             left = f" left={it.toks(a_list)}"
-        model = drv.ask(f"pycall form={form} name=f args={it.toks(bs)} frame={it.toks(frame)} slots={left}")
+        if atoms and form in ("each", "each2"):
+            model = drv.ask(f"pycall form=direct name=f args={it.toks(calls[0])} frame= slots=")   # one plain application
+        else:
+            model = drv.ask(f"pycall form={form} name=f args={it.toks(bs)} frame={it.toks(frame if not atoms or not case.get('via_params') else [])} slots={left}")
         if raised is not None:
             impl = err_name(raised) + " log="
         elif shape == "list":
@@ -689,7 +715,7 @@ def run_adverb(ctx, drv, case):
             ctx.mismatch(f"Klong.C09.{form} vs klongpy.adverbs", case, model, impl)
     ctx.count(("adverb", form, tuple(sig), where, case["b"], case.get("a")))
     ctx.bump("adverb:" + form)
-    ctx.bump("operand:" + ("string" if case["b"].startswith('"') else "list"))
+    ctx.bump("operand:" + ("atom" if atoms else "string" if case["b"].startswith('"') else "list"))
     if len(set(json.dumps(canon(m)) for m in bs)) < len(bs):
         ctx.bump("operand-with-repeats")
     return case
@@ -733,6 +759,10 @@ def gen_history(rng, nops):
         elif r < 0.26:
             n = rng.choice(DATA_NAMES)
             i = rng.randrange(N_U)
+            if n in st and st[n][0] == "data" and st[n][1] in TWINS and rng.random() < 0.5:
+                i = TWINS[st[n][1]]
+            elif rng.random() < 0.25:
+                i = rng.choice(list(TWINS))
             ops.append(["setdata", n, i])
             st[n] = ("data", i)
         elif r < 0.34:
@@ -759,7 +789,17 @@ def gen_history(rng, nops):
                 slots[j] = rng.choice(LISTVAL_IDX)
             ops.append(["defp", n, base, slots])
             st[n] = ("p", base, slots)
-        elif r < 0.46:
+        elif r < 0.43:
+            srcs = [k for k, v in st.items() if v[0] in ("k", "p")]
+            if not srcs:
+                continue
+            src_name = rng.choice(srcs)
+            n = rng.choice([x for x in NAMES if x != src_name])
+            if st[src_name][0] == "p" and st[src_name][1] == n:
+                continue                                 # would make a projection its own base
+            ops.append(["alias", n, src_name])
+            st[n] = st[src_name]
+        elif r < 0.47:
             n = rng.choice((list(st) or DATA_NAMES) if rng.random() < 0.8 else DATA_NAMES + ["nope"])
             ops.append(["del", n])
             st.pop(n, None)
@@ -790,6 +830,61 @@ def gen_history(rng, nops):
             ar = _shadow_arity(st[n])
             k = ar if rng.random() < 0.8 else rng.randrange(4)
             ops.append(["kcall", n, [_pick(rng, list(range(N_U))) for _ in range(k)], rng.choice(["var", "lit"])])
+    return ops
+
+
+def gen_scenario(rng, which):
+    """short systematic histories around ONE wrapper: read it back after an overwrite / through an alias"""
+    _init_idx()
+    a, b = rng.sample(NAMES, 2)
+    ar1, ar2 = rng.randrange(4), rng.randrange(4)
+    sig1 = list(rng.choice([s_ for s_ in SIGS if sig_arity(s_) == ar1]))
+    sig2 = list(rng.choice([s_ for s_ in SIGS if sig_arity(s_) == ar2 and list(s_) != sig1] or SIGS))
+    args = lambda k: [_pick(rng, list(range(N_U))) for _ in range(k)]
+    mode = lambda: rng.choice(["var", "lit"])
+    first = rng.choice([["defk", a, ar1, 21], ["setpy", a, sig1, rng.choice(CKINDS)], ["setdata", a, rng.randrange(N_U)]])
+    if which == "twins":
+        # successive stores to one name of values that are == in Python but different Klong values
+        n = rng.choice(DATA_NAMES)
+        i = rng.choice(list(TWINS))
+        ops = [["setdata", n, i], ["get", n, 1]]
+        for _ in range(rng.randrange(1, 4)):
+            i = TWINS[i] if rng.random() < 0.8 else rng.choice(list(TWINS))
+            ops += [["setdata", n, i], rng.choice([["get", n, 1], ["see", n]]), rng.choice([["get", n, 1], ["see", n]])]
+        return ops
+    if which == "overwrite":
+        # store, READ (maybe call), store something else under the same name, read again, call the new reading
+        ops = [first, ["get", a, 1]]
+        if first[0] != "setdata" and rng.random() < 0.5:
+            ops.append(["wcall", 1, args(ar1), mode()])
+        second = rng.choice([["setpy", a, sig2, rng.choice(CKINDS)], ["defk", a, ar2, 22]])
+        ops += [second, ["get", a, 2], ["wcall", 2, args(ar2), mode()], ["kcall", a, args(ar2), mode()]]
+        if first[0] != "setdata":
+            ops.append(["wcall", 1, args(ar2 if second[0] == "defk" else ar1), mode()])
+        return ops
+    # alias: one function value under two names, the wrapper read through the LATER name
+    ops = [["defk", a, ar1, 31], ["alias", b, a]]
+    if rng.random() < 0.3:
+        c = [x for x in NAMES if x not in (a, b)][0]
+        ops.append(["alias", c, b])
+        b = rng.choice([b, c])
+    ops += [["get", b, 1], ["wcall", 1, args(ar1), mode()]]
+    victim = rng.choice([a, b])
+    change = rng.choice(["defk", "defk", "del", "setpy", "setdata"])
+    if change == "defk":
+        ops.append(["defk", victim, ar2, 32])
+    elif change == "del":
+        ops.append(["del", victim])
+    elif change == "setpy":
+        ops.append(["setpy", victim, sig2, "plain"])
+    else:
+        ops.append(["setdata", victim, rng.randrange(N_U)])
+    still = ar2 if (victim == b and change == "defk") else ar1
+    ops += [["wcall", 1, args(still), mode()], ["wcall", 1, args(rng.randrange(4)), mode()]]
+    other = a if victim == b else b
+    ops += [["kcall", other, args(ar1), mode()]]
+    if rng.random() < 0.5:
+        ops += [["defk", other, ar2, 33], ["wcall", 1, args(ar2 if other == b else still), mode()]]
     return ops
 
 
@@ -849,6 +944,8 @@ def _history_define(w, u, op, cid):
         klong[op[1]] = u[op[2]][0]
     elif kind == "setpy":
         klong[op[1]] = w.make(tuple(op[2]), cid, op[3] if len(op) > 3 else "plain")
+    elif kind == "alias":
+        klong(f"{op[1]}::{op[2]}")                      # the SAME function value under a second name
     else:
         _, n, base, slots = op
         w.last_slot_vals = [None if s is None else klong(u[s][1]) for s in slots]
@@ -874,7 +971,7 @@ def run_history(ctx, drv, case):
         model = impl = None
         where = kind
         n_calls0 = (len(w.log), len(w.rlog))
-        if kind in ("defk", "setdata", "setpy", "defp"):
+        if kind in ("defk", "setdata", "setpy", "defp", "alias"):
             # definitions and assignments must neither raise nor apply anything
             try:
                 _history_define(w, u, op, cid + 1)
@@ -914,6 +1011,18 @@ def run_history(ctx, drv, case):
             if drv:
                 sl = ",".join("_" if s is None else str(it.tok(s)) for s in slot_vals)
                 model, impl = drv.ask(f"defp name={n} base={base} slots={sl}"), "ok"
+        elif kind == "alias":
+            _, n, src_name = op
+            e = st[src_name]
+            st[n] = e
+            ctx.bump("aliased")
+            if drv:
+                # the model has no object identity: an alias is a definition with the same content
+                if e[0] == "k":
+                    model, impl = drv.ask(f"defk name={n} arity={e[1]} body={e[2]}"), "ok"
+                else:
+                    sl = ",".join("_" if v is None else str(it.tok(v)) for v in e[2])
+                    model, impl = drv.ask(f"defp name={n} base={e[1]} slots={sl}"), "ok"
         elif kind == "del":
             _, n = op
             try:
@@ -1111,7 +1220,7 @@ def run(ctx):
     ctx.rule = ("all 32 signatures (ordered choices of distinct names from x,y,z, with/without leading klong) x call "
                 "forms applicable to the arity (direct, projection, each, over, @) x contexts (top level, inside a "
                 "Klong function with x,y,z bound, arguments referring to the caller's x,y,z, global y) x seeded "
-                "argument tuples from a 24-value universe incl. the empties "" [] :{} (variables or literals; f@a also with an atom a; projections also with list-valued fixed slots before a hole); adverbs over strings / lists with repeated members; seeded histories of "
+                "argument tuples from a 26-value universe incl. the empties "" [] :{} (variables or literals; f@a also with an atom a; projections also with list-valued fixed slots before a hole); adverbs over strings / lists with repeated members; seeded histories of "
                 "set/define/project/delete/get/see/wrapper-call/klong-call over 5 names. distinct = distinct "
                 "(signature, form, context, arguments) or distinct history; non-trivial history = at least 3 operations")
     ctx.assumptions += [
@@ -1156,6 +1265,11 @@ def run(ctx):
                         c["imported"] = (["klong"] if withk else []) + names
                         _guarded(ctx, run_pycall, drv, c)
                         ctx.bump("imported")
+        for which in ("overwrite", "alias", "twins"):
+            for h in range(120 if quick else 1500):
+                case = dict(kind="history", ops=gen_scenario(ctx.rng, which))
+                _guarded(ctx, run_history, drv, case)
+                ctx.bump("scenario:" + which)
         nh = 500 if quick else 6000
         for h in range(nh):
             ops = gen_history(ctx.rng, ctx.rng.randrange(4, 16 if quick else 40))
